@@ -61,3 +61,5 @@ uint64_t _ZN5QDate10fromStringERK7QStringS2_(char *s, char *fmt) { return 0x8000
 #ifdef HAVE_G__ZN12QMapDataBase11shared_nullE
 GT__ZN12QMapDataBase11shared_nullE G__ZN12QMapDataBase11shared_nullE = { {{{{ (uint32_t)-1 }}}}, 0, { 0, 0, 0 }, 0 };
 #endif
+/* log-message formatting with several arguments (QString::arg(a, b, c)): text is irrelevant, empty string */
+void _ZN9QtPrivate12argToQStringE11QStringViewmPPKNS_7ArgBaseE(char *ret, uint64_t n, char *p, uint64_t nargs, char *args) { *(QAD**)ret = SHARED_NULL; }
